@@ -39,6 +39,7 @@ struct Api {
     counts: unsafe extern "C" fn(*mut c_long),
     total: unsafe extern "C" fn() -> c_long,
     unmodelled: unsafe extern "C" fn() -> c_long,
+    delivered: unsafe extern "C" fn() -> c_long,
 }
 
 static API: OnceLock<Option<Api>> = OnceLock::new();
@@ -68,6 +69,7 @@ fn api() -> Option<&'static Api> {
             counts: sym("iot_counts")?,
             total: sym("iot_total")?,
             unmodelled: sym("iot_unmodelled")?,
+            delivered: sym("iot_delivered")?,
         })
     })
     .as_ref()
@@ -100,6 +102,11 @@ pub fn mark(kind: u32, id: u64) {
 pub fn fault(class: usize, nth: i64, errno: i32, persistent: bool) {
     unsafe { (must().fault)(class as c_int, nth as c_long, errno, persistent as c_int) }
 }
+/// "Bad sector" model: the nth traced read is served short (half of what was asked) and the
+/// read that follows fails with `errno`.
+pub fn fault_short_read_then_error(nth: i64, errno: i32) {
+    unsafe { (must().fault)(CL_READ as c_int, nth as c_long, errno, 2) }
+}
 pub fn budget(max_calls: i64) {
     unsafe { (must().budget)(max_calls as c_long) }
 }
@@ -114,6 +121,10 @@ pub fn counts() -> [i64; NCLASS] {
 }
 pub fn total() -> i64 {
     unsafe { (must().total)() as i64 }
+}
+/// Number of injected errors that were actually returned to the caller.
+pub fn delivered() -> i64 {
+    unsafe { (must().delivered)() as i64 }
 }
 pub fn unmodelled() -> i64 {
     unsafe { (must().unmodelled)() as i64 }
